@@ -65,7 +65,8 @@ int ed_upk(ed_t r, const ed_t p) {
 		fp_sub(t, t, core_get()->ed_a);
 		fp_inv(t, t);
 		fp_mul(u, u, t);
-		fp_srt(u, u);
+		/* There is no point with this y if the quotient is not a square. */
+		result = fp_srt(u, u);
 
 		fp_norm(u, u);
 		fp_norm(r->x, p->x);
